@@ -1283,7 +1283,9 @@ NEG = {'dupidx': ('S(-,-,0,n,[f(0,0,-,d,0,T{u8}),f(0,0,-,d,0,T{u8})])', 'duplica
        'pos_struct': ('S(-,-,0,n,[f(0,0,-,d,0,T{u8}),f(2,0,-,d,1,T{opt(u8)})])', None),
        'pos_enum': ('E(-,-,1,[v(0,-,-,u,[]),v(3,-,-,u,[])])', None)}
 
-def neg_cases(): return ["DNEG %s %s" % (k, NEG[k][0]) for k in sorted(NEG)]
+def neg_cases():
+    big = ["DBIG m %d %s %s" % (v, e, o) for v in (0, 1, 200) for e in ("-", "5", "255") for o in ("-", "7")] + ["DBIG e 0 0", "DBIG e 1 9", "DBIG e 1 250"]
+    return ["DNEG %s %s" % (k, NEG[k][0]) for k in sorted(NEG)] + big
 
 def prepare_neg(root, cache, dep):
     """build harness-derive-neg with --keep-going and write an executable that answers DNEG cases from the result"""
@@ -1416,6 +1418,7 @@ def oracle(line, impl):
 def route(line):
     op = line.split(" ", 1)[0]
     if op == "DNEG": return "neg"
+    if op == "DBIG": return "derive"
     return "derive" if op in ("DENC", "DLEN", "DDEC", "DRT", "DCOMPAT", "DMETA") else "main"
 
 # ---------------------------------------------------------------- case streams
